@@ -96,6 +96,7 @@ type BState struct {
 	OAuthSpent map[string]bool
 	Pending    map[string]*Pend // "totp"/"sms" → pending login
 	EVAuthed   bool             // presented a mailed 2FA e-mail token in this session
+	EVFor      string           // … mailed to this account
 	LastAct    time.Time        // last authenticated activity (for the idle oracle)
 	HasAct     bool
 }
